@@ -35,6 +35,14 @@ type Call struct {
 	Shape    int    `json:"shape"` // reply element spelling, see buildPayload
 	Body     string `json:"body"`  // ok | data | error
 	Fill     string `json:"fill,omitempty"`
+	// Notify: a notification (a server message without message-id, carrying this nonce) is sent as a
+	// message of its own directly behind the reply.
+	Notify string `json:"notify,omitempty"`
+	// SlowWrite/SlowMs: the SlowWrite-th transport write of the call (the return that follows the
+	// write which completed the request, i.e. which the server already answered) blocks for SlowMs
+	// before it reaches the device: the reply arrives while the client is still writing.
+	SlowWrite int `json:"slow_write,omitempty"`
+	SlowMs    int `json:"slow_ms,omitempty"`
 	// Collide: the body carries an element whose name collides with a token the library scans the
 	// stream for (hello, capability, session-id, subscription-id, subscription-result, rpc-error-count,
 	// ok); the element itself is part of Fill.
@@ -62,6 +70,10 @@ type Session struct {
 	// the transport until the first request is written, so that one read carries the end of the hello
 	// echo (its delimiter) together with the beginning of the first request's echo.
 	HoldHelloTail int `json:"hold_hello_tail,omitempty"`
+	// SlowLogUs: a debug logger that takes this long for every "channel read" line, i.e. a NETCONF
+	// read loop that runs behind the channel's read loop (schedule perturbation through the
+	// public logging hook)
+	SlowLogUs int `json:"slow_log_us,omitempty"`
 	// ReadDelayMs: channel read delay (0 = the library's default of 250 us; never busy polling)
 	ReadDelayMs int        `json:"read_delay_ms,omitempty"`
 	Seg         devsim.Seg `json:"seg"`
@@ -267,6 +279,10 @@ func GenSession(r *rand.Rand, idx int) Session {
 	switch {
 	case idx%5 == 2: // a fixed share of sessions with replies that straddle the caller's deadline
 		s.Profile = "straddle"
+	case idx%9 == 4: // replies of 150-300 KiB followed back-to-back by another server message
+		s.Profile = "big"
+	case idx%9 == 7: // the reply arrives while the client is still writing the trailing return
+		s.Profile = "race"
 	case p < 2 || idx%16 == 5: // a fixed share of long sessions whatever the PRNG says
 		s.Profile = "long"
 	case p < 19:
@@ -301,6 +317,14 @@ func GenSession(r *rand.Rand, idx int) Session {
 			// every transport read costs one read delay: only large reads
 			s.Seg = []devsim.Seg{{Mode: "whole"}, {Mode: "fixed", Size: 4096}, {Mode: "whole"}}[r.Intn(3)]
 		}
+	case "big":
+		n = 4 + r.Intn(4)
+		s.Seg = []devsim.Seg{{Mode: "whole"}, {Mode: "fixed", Size: 4096}, {Mode: "fixed", Size: 8192}, {Mode: "mix", Size: 4096}, {Mode: "fixed", Size: 1500}}[r.Intn(5)]
+		s.ReadDelayMs = []int{0, 0, 0, 1, 2, 5}[r.Intn(6)]
+		s.SlowLogUs = []int{0, 200, 500, 1000, 2000, 3000}[r.Intn(6)]
+	case "race":
+		n = 4 + r.Intn(5)
+		s.Seg = segs[r.Intn(len(segs))]
 	default:
 		s.Seg = segs[r.Intn(len(segs))]
 	}
@@ -312,7 +336,7 @@ func GenSession(r *rand.Rand, idx int) Session {
 	}
 	if s.Echo && (idx/4)%2 == 0 { // a fixed half of the echoing sessions
 		s.NoEchoMark = true
-		if s.Profile != "long" && s.ReadDelayMs == 0 && r.Intn(4) != 0 {
+		if s.Profile != "long" && s.Profile != "big" && s.ReadDelayMs == 0 && r.Intn(4) != 0 {
 			// large reads, so that echo tail and reply really share a read
 			s.Seg.Mode, s.Seg.Size = []string{"whole", "fixed", "mix", "mix"}[r.Intn(4)], []int{4096, 4096, 100, 4096}[r.Intn(4)]
 		}
@@ -328,7 +352,7 @@ func GenSession(r *rand.Rand, idx int) Session {
 		maxFill = 120
 	case s.Profile == "long":
 		maxFill = 200
-	case s.Profile == "straddle":
+	case s.Profile == "straddle", s.Profile == "big", s.Profile == "race":
 		maxFill = 300
 	}
 	releases := []string{"before-next", "before-next", "with-next-before", "next-write-1", "next-write-2", "after-next", "after-2", "at-end"}
@@ -341,6 +365,7 @@ func GenSession(r *rand.Rand, idx int) Session {
 	for k := 0; k < n; k++ {
 		c := Call{}
 		q := r.Intn(100)
+		huge, slow := false, false
 		switch s.Profile {
 		case "all-late":
 			c.Plan = "late"
@@ -357,6 +382,35 @@ func GenSession(r *rand.Rand, idx int) Session {
 			}
 			if k == n-1 || (k > 0 && s.Calls[k-1].Plan == "straddle" && q%10 < 6) {
 				c.Plan = "now" // a straddling reply is usually followed by a call that must get its own reply
+			}
+		case "big":
+			switch {
+			case k > 0 && s.Calls[k-1].Plan == "late":
+				c.Plan = "now" // answered right behind the big late reply
+			case k == n-1:
+				c.Plan = "now"
+				huge = q < 50
+			case k == 0 && idx%2 == 0, k > 0 && q < 35:
+				c.Plan, huge = "late", true // after-timeout variant
+			case k == 0, q < 60:
+				c.Plan, huge = "now", true // no-timeout variant
+			case q < 90:
+				c.Plan = "now"
+			default:
+				c.Plan = "never"
+			}
+		case "race":
+			switch {
+			case k == 0 && (idx/9)%2 == 0:
+				c.Plan = "never" // the session starts with a timeout
+			case q < 65:
+				c.Plan, slow = "now", true
+			case q < 78:
+				c.Plan = "never"
+			case q < 86:
+				c.Plan = "late"
+			default:
+				c.Plan = "now"
 			}
 		case "alternating":
 			c.Plan = []string{"now", "late"}[k%2]
@@ -384,7 +438,7 @@ func GenSession(r *rand.Rand, idx int) Session {
 				c.Plan = "local"
 			}
 		}
-		big := maxFill == 600 && r.Intn(14) == 0
+		big := (maxFill == 600 && r.Intn(14) == 0) || huge
 		if s.HoldHelloTail > 0 && reqs == 0 && c.Plan != "local" && !(s.Seg.Mode == "fixed" && s.Seg.Size < 17) && r.Intn(4) != 0 {
 			// a first request larger than any read: its echo starts in the read that ends the echo of
 			// the client's hello and does not end there
@@ -401,7 +455,11 @@ func GenSession(r *rand.Rand, idx int) Session {
 		c.Shape = []int{0, 0, 0, 1, 2, 3, 4, 5}[r.Intn(8)]
 		c.Body = []string{"data", "data", "ok", "error"}[r.Intn(4)]
 		for {
-			if big {
+			if huge {
+				c.FillLen = 150*1024 + r.Intn(150*1024)
+				c.FillSeed = r.Int63()
+				c.Body = "data"
+			} else if big {
 				c.FillLen = 3000 + r.Intn(17000)
 				c.FillSeed = r.Int63()
 			} else {
@@ -450,6 +508,13 @@ func GenSession(r *rand.Rand, idx int) Session {
 		}
 		if c.Plan == "late" {
 			c.Release = releases[r.Intn(len(releases))]
+			if huge {
+				// the next request's reply follows the big late reply at once
+				c.Release = []string{"with-next-before", "with-next-before", "before-next", "next-write-1"}[r.Intn(4)]
+			}
+		}
+		if s.Profile == "big" && c.Plan == "now" && (huge && q%10 < 7 || !huge && q%10 < 2) {
+			c.Notify = fmt.Sprintf("nt%s-%03d-%08x", tag, k, r.Uint32())
 		}
 		if c.Plan == "straddle" {
 			c.HeadPct = 10 + r.Intn(81)
@@ -468,7 +533,13 @@ func GenSession(r *rand.Rand, idx int) Session {
 				c.TailAtMs = 150 + r.Intn(31) // just after it
 			}
 		}
-		if c.Plan == "now" && r.Intn(5) < 2 {
+		if slow {
+			c.SlowWrite = 2 // 1.0: the request is complete (and answered) with the first write
+			if s.Version == "1.1" {
+				c.SlowWrite = 3 // 1.1: ... with the second
+			}
+			c.SlowMs = 50 + r.Intn(251)
+		} else if c.Plan == "now" && r.Intn(5) < 2 {
 			c.AfterWrites = 2 // 1.0: request, return
 			if s.Version == "1.1" {
 				c.AfterWrites = 3 // 1.1: request, return, return
